@@ -1,21 +1,42 @@
-use renoir::prelude::*;
-use simrt::{SimConfig, Tape};
+mod driver;
+mod dynop;
+mod elem;
+mod families;
+mod gen;
+mod job;
+mod known;
+mod oracle;
+mod plan;
+mod probe;
+mod rec;
+mod refmodel;
+mod run;
+mod win;
+mod worker;
+
+fn usage() -> ! {
+    eprintln!(
+        "usage:\n  noirsim check <Cxx> [--tier quick|thorough] [--runs N] [--seed N]\n  noirsim replay <file>\n  noirsim worker\n  noirsim one <Cxx> <run> [--seed N] [--verbose]\n  noirsim selftest determinism [--runs N]"
+    );
+    std::process::exit(2)
+}
 
 fn main() {
-    simrt::pin_process_to_cpu(0);
-    let out = simrt::rt::run(SimConfig::default(), Tape::generate(1), Tape::generate(2), || {
-        let env = StreamContext::new(RuntimeConfig::local(3).unwrap());
-        let res = env
-            .stream_par_iter(0..1000u64)
-            .map(|x| x * 2)
-            .shuffle()
-            .group_by(|x| x % 7)
-            .fold(0u64, |a, x| *a += x)
-            .collect_vec();
-        env.execute_blocking();
-        let mut v = res.get().unwrap();
-        v.sort();
-        println!("{:?}", v);
-    });
-    println!("{:?} steps={} vtime={} switches={} threads={}", out.verdict, out.steps, out.vtime_ns, out.switches, out.threads.len());
+    let args: Vec<String> = std::env::args().collect();
+    if args.len() < 2 {
+        usage();
+    }
+    // panics inside simulated threads are expected outcomes in some scenarios: keep stderr quiet
+    // unless asked otherwise
+    if std::env::var("VERIF_VERBOSE").is_err() {
+        std::panic::set_hook(Box::new(|_| {}));
+    }
+    match args[1].as_str() {
+        "worker" => worker::worker_main(),
+        "check" => std::process::exit(driver::check_main(&args[2..])),
+        "replay" => std::process::exit(driver::replay_main(&args[2..])),
+        "one" => std::process::exit(driver::one_main(&args[2..])),
+        "selftest" => std::process::exit(driver::selftest_main(&args[2..])),
+        _ => usage(),
+    }
 }
